@@ -1,6 +1,123 @@
-(* C08 — stub, replaced below *)
-From Coq Require Import List ZArith Bool.
-From NT Require Import Sx Rose Filter CaseC08.
+(* C08 — Filtering keeps exactly the accepted nodes and their ancestors.
+   Statements only; proofs are in theories/Forest/FilterProofs.v, the
+   executable model in theories/Forest/Filter.v.
+
+   v : nat -> verdict     what the predicate answers on each node (after call_predicate)
+   F v f                  the filter spec (structural recursion, stop flag threaded in pre-order)
+   kept v f n             the set characterisation of the statement (independent of F's recursion)
+   filter_inplace v f     mirror of Node.filter._visit (repaired: D05, D25) on the child list f
+   filtered v f           mirror of Node._add_filtered with its parent stack (Tree.filtered / copy(predicate=))
+   dbl v g                g plus the D24 leaves (known finding, pinned by tests/test_core.py::TestCopy::test_filtered) *)
+From Coq Require Import List ZArith Bool Arith.
+From NT Require Import Sx Rose Filter FilterProofs CaseC08.  (* CaseC08: so that the correspondence entry point is rebuilt with the theorems *)
 Import ListNotations.
-Theorem C08_stub : True. Proof. exact Logic.I. Qed.
-Print Assumptions C08_stub.
+
+(* ---- the set of kept nodes ---------------------------------------- *)
+(* exactly: accepted and visited, ancestors of those, everything below a select answer *)
+Theorem C08_kept_exactly : forall (v : nat -> verdict) (f : forest), NoDup (ids f) ->
+  forall n, In n (ids (F v f)) <-> kept v f n.
+Proof. exact F_ids_kept. Qed.
+Print Assumptions C08_kept_exactly.
+
+(* once each *)
+Theorem C08_once_each : forall v f, NoDup (ids f) -> NoDup (ids (F v f)).
+Proof. exact F_NoDup. Qed.
+Print Assumptions C08_once_each.
+
+(* original order (pre-order sequence of the result is a subsequence of the original one)
+   and original ancestry (the result is obtained by deleting branches and lifting nothing) *)
+Theorem C08_subforest : forall v f, emb (F v f) f /\ sublist (ids (F v f)) (ids f).
+Proof. intros v f. exact (conj (F_emb v f) (F_order v f)). Qed.
+Print Assumptions C08_subforest.
+
+Theorem C08_nodes_and_parents_preserved : forall v f,
+  (forall t', In t' (pre_f (F v f)) ->
+     exists t, In t (pre_f f) /\ rid t = rid t' /\ rinfo t = rinfo t' /\ emb (rch t') (rch t)) /\
+  (forall p c, child_in (F v f) p c -> child_in f p c).
+Proof.
+  intros v f. split.
+  - exact (emb_node _ _ (F_emb v f)).
+  - intros p c. exact (emb_child _ _ p c (F_emb v f)).
+Qed.
+Print Assumptions C08_nodes_and_parents_preserved.
+
+(* ---- the in-place form -------------------------------------------- *)
+Theorem C08_inplace_is_F : forall v f, NoDup (ids f) -> filter_inplace v f = F v f.
+Proof. exact filter_inplace_is_F. Qed.
+Print Assumptions C08_inplace_is_F.
+
+(* return value (must_keep) and stop flag of the scan *)
+Theorem C08_inplace_flags : forall v s f, NoDup (ids f) ->
+  ip_visit v s f = (fst (F_f v s f), negb (is_nil (fst (F_f v s f))), snd (F_f v s f)).
+Proof. exact ip_visit_is_F. Qed.
+Print Assumptions C08_inplace_flags.
+
+(* ---- the copying form (Tree.filtered, Tree.copy(predicate=), Node.…) ---- *)
+(* proved: F plus exactly the D24 leaves, modulo node identity; for every
+   first allocation index (tree start: 1, branch start: 2, add_self=False: 1) *)
+Theorem C08_copy_is_dbl_F : forall v f nx, same_modulo_ids (fst (add_filtered v f nx)) (dbl v (F v f)).
+Proof. exact add_filtered_is_dbl_F. Qed.
+Print Assumptions C08_copy_is_dbl_F.
+
+Theorem C08_inplace_eq_copy_modulo_dbl : forall v f, NoDup (ids f) ->
+  same_modulo_ids (filtered v f) (dbl v (filter_inplace v f)).
+Proof. exact inplace_vs_copy. Qed.
+Print Assumptions C08_inplace_eq_copy_modulo_dbl.
+
+(* outside the region of D24 the copying form is F *)
+Theorem C08_copy_is_F_outside_D24 : forall v f,
+  (forall n, In n (ids f) -> v n <> VTrue /\ v n <> VSkipKeepSelf) -> same_modulo_ids (filtered v f) (F v f).
+Proof. exact filtered_is_F_outside_D24. Qed.
+Print Assumptions C08_copy_is_F_outside_D24.
+
+(* the full statement of the property for the copying form, and its refutation
+   (known finding D24) on the suite's own fixture and predicate:
+   tests/test_core.py::TestCopy::test_filtered, `"2" in node.name.lower()` on
+   A(a1(a11,a12),a2) B(b1(b11)) *)
+Definition C08_copy_full_statement : Prop :=
+  forall v f, same_modulo_ids (filtered v f) (F v f).
+
+Definition nd (id : nat) (ch : list rt) : rt := T id (I (Z.of_nat id) (Z.of_nat id) 0 true [] (DInt (Z.of_nat id)) None []) ch.
+(*                 A      a1     a11      a12      a2       B      b1     b11 *)
+Definition fixture : forest := [nd 1 [nd 2 [nd 3 []; nd 4 []]; nd 5 []]; nd 6 [nd 7 [nd 8 []]]].
+Definition pred_2_in_name (n : nat) : verdict := if (Nat.eqb n 4 || Nat.eqb n 5)%bool then VTrue else VFalse.
+
+Theorem C08_copy_refuted : ~ C08_copy_full_statement.
+Proof.
+  intros H. specialize (H pred_2_in_name fixture). vm_compute in H. discriminate H.
+Qed.
+Print Assumptions C08_copy_refuted.
+
+(* ---- returned and raised signals ----------------------------------- *)
+Theorem C08_returned_raised_equal :
+  (forall c, call_predicate (RRet c) = call_predicate (RRaise c)) /\
+  call_predicate RRaiseStopIteration = call_predicate (RRaise CStop) /\
+  (forall r, classify_ip (call_predicate r) = classify_cp (call_predicate r)).
+Proof. exact (conj returned_raised_same (conj stop_iteration_is_stop classify_same)). Qed.
+Print Assumptions C08_returned_raised_equal.
+
+(* ---- non-vacuity ---------------------------------------------------- *)
+Example C08_fixture_wellformed : NoDup (ids fixture).
+Proof. apply nodupb_sound. vm_compute. reflexivity. Qed.
+
+(* the suite's predicate: a12, a2 accepted; A, a1 kept as ancestors; the rest dropped *)
+Example C08_fixture_F : F pred_2_in_name fixture = [nd 1 [nd 2 [nd 4 []]; nd 5 []]].
+Proof. vm_compute. reflexivity. Qed.
+
+Example C08_fixture_kept : kept pred_2_in_name fixture 2 /\ ~ kept pred_2_in_name fixture 3.
+Proof.
+  split; [|intros H]; apply (F_ids_kept _ _ C08_fixture_wellformed) in H || apply (F_ids_kept _ _ C08_fixture_wellformed);
+    vm_compute in *; intuition discriminate.
+Qed.
+
+(* all six verdicts at once: 1 False(ancestor), 2 Select, 5 KeepSelf, 7 Skip, 8 True, 9 Stop, 10 True (after the stop) *)
+Definition mixed : forest := [nd 1 [nd 2 [nd 3 []; nd 4 []]; nd 5 [nd 6 []]]; nd 7 [nd 11 []]; nd 8 []; nd 9 []; nd 10 []].
+Definition mixed_v (n : nat) : verdict :=
+  match n with 2 => VSelect | 5 => VSkipKeepSelf | 7 => VSkip | 8 => VTrue | 9 => VStop | 10 => VTrue | 3 => VStop | _ => VFalse end.
+Example C08_mixed :
+  NoDup (ids mixed) /\
+  F mixed_v mixed = [nd 1 [nd 2 [nd 3 []; nd 4 []]; nd 5 []]; nd 8 []] /\
+  filter_inplace mixed_v mixed = F mixed_v mixed /\
+  map erase (filtered mixed_v mixed) = map erase [nd 1 [nd 2 [nd 3 []; nd 4 []]; nd 5 [nd 5 []]]; nd 8 [nd 8 []]] /\
+  calls mixed_v mixed = [1; 2; 5; 7; 8; 9].
+Proof. split; [apply nodupb_sound|]; vm_compute; repeat split; reflexivity. Qed.
